@@ -178,7 +178,7 @@ func (t *JT) PathString(p JPath) string {
 }
 
 // FaultKinds lists the schema faults applied at a path.
-var FaultKinds = []string{"null", "number", "string", "object", "array", "bool", "empty", "absent", "duplicate", "oversize", "deep", "freetext", "spaced", "padded", "blank", "punct"}
+var FaultKinds = []string{"null", "number", "string", "object", "array", "bool", "empty", "absent", "duplicate", "oversize", "deep", "freetext", "spaced", "padded", "blank", "punct", "wide"}
 
 // ApplyFault returns a copy of t with the fault applied at p, or nil when it does not apply there.
 func (t *JT) ApplyFault(p JPath, kind string) *JT {
@@ -312,6 +312,14 @@ func (t *JT) ApplyFault(p JPath, kind string) *JT {
 			return nil
 		}
 		return set(&JT{Kind: 's', Scalar: "#"})
+	case "wide": // many bytes, few characters
+		if cur.Kind != 's' {
+			return nil
+		}
+		if len(cur.Scalar)%2 == 0 {
+			return set(&JT{Kind: 's', Scalar: strings.Repeat("漢", 30)})
+		}
+		return set(&JT{Kind: 's', Scalar: strings.Repeat("é", 32) + "x"})
 	}
 	return nil
 }
